@@ -34,7 +34,7 @@ pub fn multi_sets(tier: Tier) -> Vec<MultiSet> {
     for l in LANGS {
         let f1 = fam1(l);
         let s = sym(l);
-        let full = tier == Tier::Thorough || matches!(l, L::None | L::En | L::Ru);
+        let full = tier == Tier::Thorough || matches!(l, L::None | L::Ru);
         // (i) all stores of <= 3 records over short F1 titles
         let mut menu = all_strings(&f1, 0, 2);
         for extra in [format!("{0}{1}{0}", s.v, s.c), format!("{0}{0}{1}", s.v, s.c), format!("{0}{1}{1}", s.v, s.c), format!("{0}-{0}{1}", s.v, s.c), format!("{0}{1} {0}", s.v, s.c), format!("{1}{0}{1}{0}", s.v, s.c)] {
